@@ -3,11 +3,11 @@
 # Applies a behaviour-preserving refactoring (a diff relative to /repo HEAD) to a scratch worktree and runs the quick tier
 # of all twenty properties against it in one process. Every property must still exit 0: anything else is a false alarm
 # of the machinery (or the refactoring is not behaviour-preserving after all — read the report).
-diff=$1; bin=${2:-/verif/bin/hpfscheck}
+diff=$(realpath $1); bin=${2:-/verif/bin/hpfscheck}
 export GOFLAGS=-mod=mod GOPROXY=off GOSUMDB=off GOTOOLCHAIN=local; unset GOWORK
 W=$(mktemp -d /tmp/nevXXXX); rmdir $W
 git -C /repo worktree add -q --detach $W HEAD || exit 2
-V=$(mktemp -d /tmp/nevvXXXX); cp /verif/known_findings.json $V/; mkdir -p $V/checker; ln -s /verif/checker/fixtures $V/checker/fixtures
+V=$(mktemp -d /tmp/nevvXXXX); cp /verif/known_findings.json /verif/reference_funcs.json $V/ 2>/dev/null; mkdir -p $V/checker; ln -s /verif/checker/fixtures $V/checker/fixtures
 if ! git -C $W apply $diff 2> $V/apply.log; then echo "$(basename $diff) APPLY-FAILED $(head -2 $V/apply.log)"; else
   (cd $W && go build ./... 2>&1 | head -3)
   $bin -repo $W -verif $V -properties all > $V/all.log 2>&1
